@@ -1,14 +1,17 @@
 // C08 wrapper: speculative mutexes (rtm_mutex, rtm_rw_mutex), FALLBACK PATH ONLY.
-// The HTM intrinsics are replaced by harness stubs: vp_xbegin() never starts a transaction (returns an abort code chosen by the
-// solver, so every retry/no-retry decision of the real acquire loops is explored), _xend/_xabort must never be reached.
+// The HTM intrinsics are replaced by harness stubs (h_rtm_stubs.h): a transaction either commits atomically or has no effect;
+// vp_xbegin() returns a solver-chosen abort status (fallback / retry decisions of the real loops) or starts a transaction.
 // governor::cpu_features (normally defined in misc.cpp, filled by CPUID detection) is defined here; rtm_enabled is a scenario input.
 #define __RTMINTRIN_H 1
+#define __XTESTINTRIN_H 1
 extern "C" unsigned vp_xbegin(void);
 extern "C" void vp_xend(void);
 extern "C" void vp_xabort(unsigned);
 static inline unsigned _xbegin(void) { return vp_xbegin(); }
 static inline void _xend(void) { vp_xend(); }
 #define _xabort(imm) vp_xabort(imm)
+extern "C" unsigned vp_xtest(void);
+static inline int _xtest(void) { return (int)vp_xtest(); }
 #include "src/tbb/rtm_mutex.cpp"
 #include "src/tbb/rtm_rw_mutex.cpp"
 #include <new>
@@ -62,6 +65,28 @@ extern "C" void vp_thr_rtmrw(rtm_rw_mutex* m, int tid, int role) {
     vp_leave(tid, 0);
   } else vp_leave(tid, w);
   l.release();
+}
+// ---- variants with a data word pair updated inside the critical section (A++ ... B++ are separate memory operations): a reader
+// that gets in while a writer is between the two (e.g. a speculating reader not kept out by write_flag) sees A != B
+unsigned long vp_A, vp_B;
+extern "C" void vp_data_read(int tid, unsigned long a, unsigned long b);
+extern "C" void vp_thr_rtm_d(rtm_mutex* m, int tid, int op) {
+  rtm_mutex::scoped_lock l;
+  bool ok = true;
+  if (op == 0) l.acquire(*m); else { ok = l.try_acquire(*m); vp_try_result(tid, ok); }
+  if (ok) { vp_enter(tid, 1); unsigned long a = vp_A, b = vp_B; vp_data_read(tid, a, b); vp_A = a + 1; vp_B = b + 1; vp_leave(tid, 1); l.release(); }
+}
+extern "C" void vp_thr_rtmrw_d(rtm_rw_mutex* m, int tid, int role) {     // role 0 reader, 1 writer, 4 try reader, 5 try writer
+  rtm_rw_mutex::scoped_lock l;
+  bool w = (role == 1 || role == 5), ok = true;
+  if (role < 4) l.acquire(*m, w); else { ok = l.try_acquire(*m, w); vp_try_result(tid, ok); }
+  if (ok) {
+    vp_enter(tid, w);
+    if (w) { vp_A = vp_A + 1; vp_B = vp_B + 1; }
+    else { unsigned long a = *(volatile unsigned long*)&vp_A, b = *(volatile unsigned long*)&vp_B; vp_data_read(tid, a, b); }
+    vp_leave(tid, w);
+    l.release();
+  }
 }
 extern "C" unsigned long vp_rtm_word(rtm_mutex* m) { return m->m_flag.load(std::memory_order_relaxed); }
 extern "C" unsigned long vp_rtmrw_word(rtm_rw_mutex* m) { return (unsigned long)m->m_state.load(std::memory_order_relaxed) | ((unsigned long)m->write_flag.load(std::memory_order_relaxed) << 62); }
